@@ -1,0 +1,65 @@
+//go:build verif
+
+package api
+
+import (
+	"net/http"
+	"time"
+)
+
+// Verification helpers for property C12 (build tag "verif" only).
+
+// VerifHandler returns the handler installed on the API server (the real mainHandler).
+func VerifHandler() http.Handler { return server.Handler }
+
+// VerifSetAuthenticatorSet switches the "an authenticator is registered" flag.
+func VerifSetAuthenticatorSet(set bool) { authFnSet.SetTo(set) }
+
+// VerifResetSessions forgets all sessions.
+func VerifResetSessions() {
+	sessionsLock.Lock()
+	defer sessionsLock.Unlock()
+	for k := range sessions {
+		delete(sessions, k)
+	}
+}
+
+// VerifAgeSessions moves the expiry of every session d into the past (= the clock advanced by d).
+func VerifAgeSessions(d time.Duration) {
+	sessionsLock.Lock()
+	defer sessionsLock.Unlock()
+	for _, sess := range sessions {
+		sess.Lock()
+		sess.validUntil = sess.validUntil.Add(-d)
+		sess.Unlock()
+	}
+}
+
+// VerifAgeAPIKeys moves the expiry of every imported API key d into the past.
+func VerifAgeAPIKeys(d time.Duration) {
+	apiKeysLock.Lock()
+	defer apiKeysLock.Unlock()
+	for _, token := range apiKeys {
+		if token.ValidUntil != nil {
+			t := token.ValidUntil.Add(-d)
+			token.ValidUntil = &t
+		}
+	}
+}
+
+// VerifCleanSessions runs the periodic session cleaner once.
+func VerifCleanSessions() { _ = cleanSessions(nil, nil) }
+
+// VerifDeleteSession removes one session (what auth/reset does).
+func VerifDeleteSession(key string) { deleteSession(key) }
+
+// VerifCounts returns the number of imported API keys and stored sessions.
+func VerifCounts() (keys, sess int) {
+	apiKeysLock.Lock()
+	keys = len(apiKeys)
+	apiKeysLock.Unlock()
+	sessionsLock.Lock()
+	sess = len(sessions)
+	sessionsLock.Unlock()
+	return
+}
